@@ -21,7 +21,7 @@ MODEL_FIXED = os.environ.get("VERIF_C14_MODEL_FIXED", "1") == "1"
 # "1": /repo 1af504c (through_pointer, outermost pointer level) — the code as it is.
 # "2": every auto-dereferenced level checked (.cache/prompts/C14-2-fix.diff); make it the default once
 #      that repair is committed (C14_fix2_full_sound is proved for it) and close C14-6a/b/c.
-MODEL_VARIANT = os.environ.get("VERIF_C14_MODEL_VARIANT", "1")
+MODEL_VARIANT = os.environ.get("VERIF_C14_MODEL_VARIANT", "2")
 
 I = ("I",)
 S = ("S",)
